@@ -33,6 +33,14 @@ mpf_get_d (mpf_srcptr src)
     return 0.0;
 
   abs_size = ABS (size);
-  exp = (EXP (src) - abs_size) * GMP_NUMB_BITS;
+  exp = EXP (src) - abs_size;
+  /* the bit exponent need not fit a long: saturate, mpn_get_d then gives
+     infinity or zero */
+  if (UNLIKELY (exp > LONG_MAX / GMP_NUMB_BITS))
+    exp = LONG_MAX;
+  else if (UNLIKELY (exp < LONG_MIN / GMP_NUMB_BITS))
+    exp = LONG_MIN / 2;
+  else
+    exp *= GMP_NUMB_BITS;
   return mpn_get_d (PTR (src), abs_size, size, exp);
 }
